@@ -2,6 +2,7 @@ package keeper
 
 import (
 	"context"
+	"math/big"
 	"time"
 
 	"cosmossdk.io/collections"
@@ -71,7 +72,11 @@ func (k Keeper) ApplyVestingSchedules(ctx context.Context, auction types.Auction
 
 		remaining := reserveCoin
 		for i, schedule := range auction.GetVestingSchedules() {
-			payingAmt := math.LegacyNewDecFromInt(reserveCoin.Amount).MulTruncate(schedule.Weight).TruncateInt()
+			// weight share of the proceeds, rounded down; computed on big integers because proceeds
+			// above 2^255 do not fit LegacyDec once scaled by 10^18 (MulTruncate panics with "Int overflow")
+			share := new(big.Int).Mul(reserveCoin.Amount.BigInt(), schedule.Weight.BigInt())
+			share.Quo(share, math.LegacyOneDec().BigInt())
+			payingAmt := math.NewIntFromBigInt(share)
 
 			// All the remaining paying coin goes to the last vesting queue
 			if i == vsLen-1 {
